@@ -71,7 +71,7 @@ fn judge(ctx: &mut Ctx, cfg: &Cfg, v: &V, addr: u32, o: &Obs) {
     let want = fields::squawk(v.id13);
     let site = format!("C06/DF{}/{}", v.df, if v.update { "update" } else { "first" });
     let key = format!("id13={:04X}/base{}/{}", v.id13, v.base, cfg.label());
-    let case = || json!({"kind": "id13", "df": v.df, "id13": v.id13, "base": v.base, "update": v.update, "cfg": cfg.opts});
+    let case = || json!({"kind": "id13", "df": v.df, "id13": v.id13, "base": v.base, "update": v.update, "cfg": cfg.opts, "addr": addr});
     match o {
         Obs::Row(s) => {
             if v.df == 21 && !v.update {
@@ -178,9 +178,10 @@ fn replay(ctx: &mut Ctx, case: &Value) {
     match case.get("kind").and_then(|x| x.as_str()) {
         Some("id13") => {
             let v = V { df: g("df"), id13: g("id13"), base: g("base"), update: case.get("update").and_then(|x| x.as_bool()).unwrap_or(false) };
-            let ob = single(&cfg, BASE, lines(&v, BASE));
-            crate::run::say(&format!("lines {:?} cfg [{}]: expected squawk {:04}, observed {:?}", lines(&v, BASE).iter().map(|l| String::from_utf8_lossy(l).into_owned()).collect::<Vec<_>>(), cfg.label(), fields::squawk(v.id13), ob.row().map(|s| s.squawk)));
-            judge(ctx, &cfg, &v, BASE, &ob);
+            let addr = case.get("addr").and_then(|x| x.as_u64()).map(|a| a as u32).unwrap_or(BASE);
+            let ob = single(&cfg, addr, lines(&v, addr));
+            crate::run::say(&format!("lines {:?} cfg [{}]: expected squawk {:04}, observed {:?}", lines(&v, addr).iter().map(|l| String::from_utf8_lossy(l).into_owned()).collect::<Vec<_>>(), cfg.label(), fields::squawk(v.id13), ob.row().map(|s| s.squawk)));
+            judge(ctx, &cfg, &v, addr, &ob);
         }
         Some("other") => {
             let addr = 0x3C4DD2;
